@@ -17,7 +17,8 @@ RULE = ("Each random case = 40 histories of 20-200 operations over 2-5 receivers
         "recording receivers and senders: what _handle_rtp_data / _handle_rtcp_data deliver (after real serialisation and parsing) "
         "must be the model's set, exactly once each. Enumeration cases run ALL histories up to length 4 (quick) / 5 (thorough) "
         "over 2 receivers x 2 payload types x 2 SSRCs. Distinct/non-trivial = distinct histories containing "
-        "latch->unregister->packet, or a packet whose payload type is accepted by several receivers, or overlap of SSRC sets.")
+        "latch->unregister->packet, or a packet whose payload type is accepted by several receivers, or overlap of SSRC sets."
+        ' Behind a real RTCDtlsTransport the histories include compound RTCP packets during whose dispatch one handler unregisters another party: sub-packets after that moment must not reach it.')
 ASSUMPTIONS = [
     "receivers and senders are opaque stub objects (the router only stores and returns them)",
     "SDES packets: only the 'never routed to an unregistered party' clause is evaluated (the statement does not say who SDES reports on)",
